@@ -745,6 +745,7 @@ pub struct PushedH {
     pub sid: u32,
     pub prf: Option<client::PushedResponseFuture>,
     pub body: Option<RecvStream>,
+    pub got_response: bool,
 }
 
 pub struct PWorld {
@@ -762,11 +763,15 @@ pub struct PWorld {
 pub struct PushLife {
     pub events: Vec<PEv>,
     pub name: &'static str,
+    /// SETTINGS_MAX_CONCURRENT_STREAMS the client advertises (it limits the streams the server may push)
+    pub limit: Option<u32>,
 }
 
 impl PushLife {
     pub fn new(name: &'static str, quick: bool) -> PushLife {
-        let n = if quick { 1 } else { 2 };
+        Self::new_variant(name, if quick { 1 } else { 2 }, None)
+    }
+    pub fn new_variant(name: &'static str, n: usize, limit: Option<u32>) -> PushLife {
         let mut ev = vec![PEv::PeerPromise, PEv::PeerRespondEos, PEv::PollResponse, PEv::TakePromises, PEv::PollPromise, PEv::DropPromises, PEv::DropRf, PEv::DropBody];
         for j in 0..n {
             ev.push(PEv::PeerPushHead(j, true));
@@ -779,7 +784,7 @@ impl PushLife {
             ev.push(PEv::DropPushedBody(j));
         }
         ev.push(PEv::Drive);
-        PushLife { events: ev, name }
+        PushLife { events: ev, name, limit }
     }
     fn max_promises(&self) -> usize {
         self.events.iter().filter(|e| matches!(e, PEv::PeerPushRst(_))).count()
@@ -798,6 +803,9 @@ impl Model for PushLife {
     fn cfg(&self) -> T2Cfg {
         let mut cb = client::Builder::new();
         cb.enable_push(true);
+        if let Some(l) = self.limit {
+            cb.max_concurrent_streams(l);
+        }
         cb.reset_stream_duration(std::time::Duration::from_secs(3600));
         cb.max_concurrent_reset_streams(2);
         cb.initial_window_size(6);
@@ -892,7 +900,7 @@ impl Model for PushLife {
                     Some(Poll::Ready(Some(Ok(p)))) => {
                         let (_req, prf) = p.into_parts();
                         let sid = prf.stream_id().as_u32();
-                        w.pushed.push(PushedH { sid, prf: Some(prf), body: None });
+                        w.pushed.push(PushedH { sid, prf: Some(prf), body: None, got_response: false });
                     }
                     Some(Poll::Ready(_)) => safe_drop(&mut panics, "PushPromises", w.pp.take()),
                     _ => {}
@@ -906,6 +914,7 @@ impl Model for PushLife {
                     match guarded(&mut panics, "poll pushed response", || Pin::new(prf).poll(&mut cx)) {
                         Some(Poll::Ready(Ok(resp))) => {
                             p.body = Some(resp.into_body());
+                            p.got_response = true;
                             safe_drop(&mut panics, "PushedResponseFuture", p.prf.take());
                         }
                         Some(Poll::Ready(Err(_))) => safe_drop(&mut panics, "PushedResponseFuture", p.prf.take()),
@@ -947,8 +956,29 @@ impl Model for PushLife {
         t.panics.extend(panics);
         t.catch_up();
     }
-    fn invariant(&self, _t: &mut T2, _w: &mut PWorld) -> V3 {
-        vec![]
+    fn invariant(&self, t: &mut T2, w: &mut PWorld) -> V3 {
+        let mut v = vec![];
+        if let Some(limit) = self.limit {
+            // pushed streams whose response the application has been handed and that are still open (not ended, not reset by
+            // either side)
+            let active = w
+                .pushed
+                .iter()
+                .filter(|p| p.got_response && p.body.is_some())
+                .filter(|p| !peer_closed(t, p.sid) && t.rst_sent(p.sid).is_empty())
+                .count();
+            if active > limit as usize {
+                v.push(("C05.too-many-streams-surfaced".to_string(), "push".into(), format!("the application holds {} open pushed streams, the client advertised SETTINGS_MAX_CONCURRENT_STREAMS = {}", active, limit)));
+            }
+            // (the promise itself may have been announced before the stream turned out to be one too many: a reserved stream
+            // is not an active one; what must not happen is that the refused stream's response is delivered)
+            for p in &w.pushed {
+                if t.rst_sent(p.sid).contains(&7) && p.got_response {
+                    v.push(("C05.refused-stream-surfaced".into(), "push".into(), format!("promised stream {} was refused with REFUSED_STREAM, yet its response was delivered to the application", p.sid)));
+                }
+            }
+        }
+        v
     }
     fn epilogue(&self, t: &mut T2, w: &mut PWorld) -> V3 {
         let mut v = vec![];
@@ -1079,6 +1109,9 @@ pub fn run(ctx: &Ctx) -> Outcome {
 
 pub fn replay(v: &serde_json::Value) -> Option<bool> {
     let h = v["harness"].as_str().unwrap_or("");
+    if h == "x2.push-life-limit1" {
+        return Some(replay_model(&PushLife::new_variant("push-life-limit1", 2, Some(1)), v["property"].as_str().map(|p| if p == "C05" { "C05" } else { "C19" }).unwrap_or("C19"), v));
+    }
     if h == "x2.push-life-q" {
         return Some(replay_model(&PushLife::new("push-life-q", true), "C19", v));
     }
